@@ -296,7 +296,19 @@ pub(crate) enum Item<V> {
         key: u64,
         conflict: u64,
     },
-    Wait(WaitGroup),
+    Wait(WaitSignal),
+}
+
+/// What `wait()` queues. The waiter is released when the marker is dropped, wherever that
+/// happens: applied by the processor, drained by `clear()`, refused by a full buffer, or
+/// destroyed together with the channel when the processor stops. No path can leave a waiter
+/// blocked for ever.
+pub(crate) struct WaitSignal(WaitGroup);
+
+impl Drop for WaitSignal {
+    fn drop(&mut self) {
+        self.0.done();
+    }
 }
 
 impl<V> Item<V> {
@@ -565,7 +577,7 @@ where
         crate::verif::yield_point("open_checked");
 
         let wg = WaitGroup::new();
-        let wait_item = Item::Wait(wg.add(1));
+        let wait_item = Item::Wait(WaitSignal(wg.add(1)));
         match self.insert_buf_tx.try_send(wait_item) {
             Ok(_) => {
                 #[cfg(transparencies_stretto_verif)]
@@ -767,6 +779,11 @@ where
         self.insert_buf_rx.close();
         self.clear_rx.close();
         self.stop_rx.close();
+        // What is still buffered will never be applied; a `Wait` marker among it has to
+        // release its waiter (nothing can be queued any more: the channel is closed).
+        while let Ok(item) = self.insert_buf_rx.try_recv() {
+            drop(item);
+        }
         Ok(())
     }
 
